@@ -48,6 +48,11 @@ CHECKS.update({
             "Every container of the bounded space is converted along every chain of dict / table / tensors / CSV / JSON conversions (breadth-first with deduplication until no new container content appears) and every intermediate form and final container is compared with the reference (identifiers as strings in order, names, shapes, values exactly or to single precision once a tensor is on the path); every malformed addition must be refused and leave the container unchanged.",
             "Alphabets of identifiers / names / shapes / values are small; empty containers, tuples and names ending in _<digits> are left out."),
 })
+CHECKS.update({
+    "C04": ("exploration", "exhaustive enumeration of model kind x noise structure x small cohorts with every missing pattern x latent-state alphabet x phase through the real _maximization_step against float64 closed forms",
+            "Every case is a 3-4 step history through the real _maximization_step (memory-less, first iteration after, with memory) for 11 model / noise configurations incl. the mixture model, all missing-entry patterns of small cohort layouts and all combinations of a 2-valued latent alphabet; every updated parameter is compared with the closed form computed in float64 from the statistics in force and the pre-step parameters; seeded real fits bind every iteration to the same oracle.",
+            "Cohorts of 2-3 individuals; latent alphabets of 2 values per group; mixture responsibilities accepted in the implementation's likelihood-only form."),
+})
 NOT_APPLICABLE = {}
 
 def main():
